@@ -1,6 +1,6 @@
 /-
-The world-login `into_server_header_crypto` / `into_client_header_crypto` (Vanilla; TBC and Wrath call the same function with the same
-argument order, proved in Props/Source/ApiWorld.lean) with `calculate_world_server_proof` meaning its TRANSLATED term (see
+The world-login `into_server_header_crypto` / `into_client_header_crypto` of VANILLA (the TBC and Wrath copies are proved against the
+hand-written table only, in Props/Source/ApiWorld.lean; their call sites have the same text) with `calculate_world_server_proof` meaning its TRANSLATED term (see
 Props/Source/ApiLinkBase.lean): the arguments at the call site — user name, session key, the object's own seed, the peer's seed — handed
 positionally to the parameters of the callee's signature (username, session_key, server_seed, client_seed) give the model's function.
 -/
@@ -24,7 +24,7 @@ theorem C06_linked_into_server (C : Crypto) (u : NStr) (K proof : Bytes) (seed c
     Gen.CodeApi.vanillaIntoServer.run (worldLinkedPrims C) (selfSeed seed) [.nstr u, .bytes K, .bytes proof, .num clientSeed] []
       = some (.ok (match ProofSeed.intoServerHeaderCrypto C .vanilla seed u K proof clientSeed with
           | .error er => (.err (valMatchErr er), selfSeed seed, [])
-          | .ok _ => (.ok (cryptoMark "HeaderCrypto::new" K), selfSeed seed, []))) := by
+          | .ok _ => (.ok (cryptoMark "vanilla_header::HeaderCrypto::new" K), selfSeed seed, []))) := by
   have hw := hashCallee_world_proof C u K seed clientSeed h1 h2
   by_cases hM : calculateWorldServerProof C u.asRef K seed clientSeed = proof
   · simp [Gen.CodeApi.vanillaIntoServer, ApiFn.run, runBody, Rhs.eval, drawKinds, Ret.eval, atomsVal, fieldsVal, Atom.val, lookup, bindVar, worldLinkedPrims,
@@ -35,7 +35,7 @@ theorem C06_linked_into_server (C : Crypto) (u : NStr) (K proof : Bytes) (seed c
 
 theorem C06_linked_into_client (C : Crypto) (u : NStr) (K : Bytes) (seed serverSeed : Nat) (h1 : seed < 2 ^ 32) (h2 : serverSeed < 2 ^ 32) :
     Gen.CodeApi.vanillaIntoClient.run (worldLinkedPrims C) (selfSeed seed) [.nstr u, .bytes K, .num serverSeed] []
-      = some (.ok (.tup (.bytes (ProofSeed.intoClientHeaderCrypto C .vanilla seed u K serverSeed).1) (cryptoMark "HeaderCrypto::new" K), selfSeed seed, [])) := by
+      = some (.ok (.tup (.bytes (ProofSeed.intoClientHeaderCrypto C .vanilla seed u K serverSeed).1) (cryptoMark "vanilla_header::HeaderCrypto::new" K), selfSeed seed, [])) := by
   have hw := hashCallee_world_proof C u K serverSeed seed h2 h1
   simp [Gen.CodeApi.vanillaIntoClient, ApiFn.run, runBody, Rhs.eval, drawKinds, Ret.eval, atomsVal, Atom.val, lookup, bindVar, worldLinkedPrims, worldPrims,
     hw, selfSeed, ProofSeed.intoClientHeaderCrypto, Out.bind, bind]
